@@ -51,7 +51,7 @@ def regen(ctx):
 
 
 SPEC = {
-    "lean_props": ["Hive.Props.C18", "Hive.Props.TimedFacts"],
+    "lean_props": ["Hive.Props.C18", "Hive.Props.TimedFacts", "Hive.Props.TimedFlags"],
     "regen": regen,
     "lean_namespace": "Hive.Timed",
     "driver": "drv_c18",
@@ -68,7 +68,10 @@ SPEC = {
                  "C18_skeleton_cancel", "C18_skeleton_executor", "C18_skeleton_taskexecutor",
                  "C18_facts_queue", "C18_facts_poll", "C18_facts_element", "C18_facts_executor", "C18_facts_taskexecutor",
                  "C18_facts_heap", "C18_facts_methods", "C18_skeleton_types", "C18_skeleton_helpers", "C18_facts_flags",
-                 "C18_flags_hasBits", "C18_flags_or", "C18_flags_decode", "C18_lock_order"],
+                 "C18_flags_hasBits", "C18_flags_or", "C18_flags_decode", "C18_lock_order",
+                 "C18_shutdown_flag_table", "C18_flag_table_cancel_empties_heap", "C18_flag_table_refuses_add",
+                 "C18_cancel_flag_held_element", "C18_cancel_flag_held_both_enabled",
+                 "C18_cancel_flag_held_dropped_witness", "C18_cancel_flag_held_delivered_witness"],
     "trusted_base": [
         "hand-written protocol model Hive/Model/Timed.lean of runtime/timed (queue.go, executor.go, taskexecutor.go over container/heap "
         "and generalheap); ties: (1) differential execution of the model's own transition function under a deterministic scheduler "
